@@ -24,7 +24,7 @@ RULE = (
     "ones and call-time overrides; in a third of the cases the same "
     "ufunc object and option objects are then applied on a second grid with different defaults (judged with that grid's "
     "rules); a mis-positioned input is rejected; pad_before_func bound at definition == call; dask= / map_overlap= bound at "
-    "definition == call == apply on lazy input (parallelized, allowed, allowed+map_overlap on a chunked core dim), call-time dask overrides 'forbidden' and vice versa. Class "
+    "definition == call == apply on lazy input (one-axis signature, or two-axis with only the first axis padded and the second core dim in one chunk; parallelized, allowed, allowed+map_overlap on a chunked core dim), call-time dask overrides 'forbidden' and vice versa. Class "
     "= (supply mode, #inputs, #outputs, dummies per argument, which options come from which level, rules); non-trivial "
     "iff some width > 0 or several inputs/dummies."
 )
@@ -336,15 +336,35 @@ def dask_binding_scenario(ctx, desc, g, ds, cm):
     a = cands[desc["dseed"] % len(cands)]
     to = "left" if "left" in cm[a] else "right"
     n = ds.sizes[cm[a]["center"]]
-    da = xr.DataArray(gen.quarter_data(desc["dseed"] + 7, [2, n]), dims=["time", cm[a]["center"]])
-    sig = f"(D:center)->(D:{to})"
-    bw = {"D": (1, 0) if to == "left" else (0, 1)}
-
+    # half of the cases (when the grid has a second axis) use a two-axis argument of which only the first is padded; the
+    # second core dimension stays in one chunk
+    # (second axis on center/left/right only: an explicit map_overlap with an inner/outer position anywhere in the signature
+    # is refused today even for unchunked dimensions, which no statement settles - L4)
+    others = [b for b in cm if b != a and set(cm[b]) & {"center", "left", "right"}]
+    two = bool(others) and (desc["dseed"] // 3) % 2 == 0
     seen = []
+    if two:
+        b = others[desc["dseed"] % len(others)]
+        pbs = sorted(set(cm[b]) & {"center", "left", "right"})
+        pb = pbs[desc["dseed"] % len(pbs)]
+        nb = ds.sizes[cm[b][pb]]
+        da = xr.DataArray(gen.quarter_data(desc["dseed"] + 7, [2, n, nb]), dims=["time", cm[a]["center"], cm[b][pb]])
+        sig = f"(D:center,E:{pb})->(D:{to},E:{pb})"
+        axis_arg = [(a, b)]
 
-    def f(x):
-        seen.append(type(x).__module__.split(".")[0])  # numpy blocks (parallelized, map_overlap) or the dask array itself (allowed)
-        return x[..., 1:] - x[..., :-1]
+        def f(x):
+            seen.append(type(x).__module__.split(".")[0])
+            return x[..., 1:, :] - x[..., :-1, :]
+    else:
+        da = xr.DataArray(gen.quarter_data(desc["dseed"] + 7, [2, n]), dims=["time", cm[a]["center"]])
+        sig = f"(D:center)->(D:{to})"
+        axis_arg = [(a,)]
+
+        def f(x):
+            seen.append(type(x).__module__.split(".")[0])  # numpy blocks (parallelized, map_overlap) or the dask array itself (allowed)
+            return x[..., 1:] - x[..., :-1]
+
+    bw = {"D": (1, 0) if to == "left" else (0, 1)}
 
     kind = ["parallelized", "allowed", "allowed-map_overlap"][(desc["dseed"] // 7) % 3]
     opts = {"dask": "parallelized"} if kind == "parallelized" else {"dask": "allowed"} if kind == "allowed" else {"dask": "allowed", "map_overlap": True}
@@ -353,12 +373,12 @@ def dask_binding_scenario(ctx, desc, g, ds, cm):
     common = dict(boundary=rule, fill_value=2.5)
     ctx.judged(("dask-binding", kind, rule), True)
     try:
-        eager = apply_as_grid_ufunc(f, da, axis=[(a,)], grid=g, signature=sig, boundary_width=bw, **common)
+        eager = apply_as_grid_ufunc(f, da, axis=axis_arg, grid=g, signature=sig, boundary_width=bw, **common)
         variants = {
-            "definition": lambda: as_grid_ufunc(signature=sig, boundary_width=bw, **opts, **common)(f)(g, lazy, axis=[(a,)]),
-            "call": lambda: as_grid_ufunc(signature=sig, boundary_width=bw, **common)(f)(g, lazy, axis=[(a,)], **opts),
-            "call-overrides-forbidden": lambda: as_grid_ufunc(signature=sig, boundary_width=bw, dask="forbidden", **common)(f)(g, lazy, axis=[(a,)], **opts),
-            "apply": lambda: apply_as_grid_ufunc(f, lazy, axis=[(a,)], grid=g, signature=sig, boundary_width=bw, **opts, **common),
+            "definition": lambda: as_grid_ufunc(signature=sig, boundary_width=bw, **opts, **common)(f)(g, lazy, axis=axis_arg),
+            "call": lambda: as_grid_ufunc(signature=sig, boundary_width=bw, **common)(f)(g, lazy, axis=axis_arg, **opts),
+            "call-overrides-forbidden": lambda: as_grid_ufunc(signature=sig, boundary_width=bw, dask="forbidden", **common)(f)(g, lazy, axis=axis_arg, **opts),
+            "apply": lambda: apply_as_grid_ufunc(f, lazy, axis=axis_arg, grid=g, signature=sig, boundary_width=bw, **opts, **common),
         }
         handed = {}
         for nm, fn in variants.items():
@@ -383,7 +403,7 @@ def dask_binding_scenario(ctx, desc, g, ds, cm):
     # call-time 'forbidden' overrides a definition-time permission: a lazy input is then refused
     ctx.judged(("dask-binding-override-to-forbidden", kind), True)
     try:
-        as_grid_ufunc(signature=sig, boundary_width=bw, **opts, **common)(f)(g, lazy, axis=[(a,)], dask="forbidden", map_overlap=False)
+        as_grid_ufunc(signature=sig, boundary_width=bw, **opts, **common)(f)(g, lazy, axis=axis_arg, dask="forbidden", map_overlap=False)
         ctx.violation("dask-options-binding", f"defined with {opts}, called with dask='forbidden': the lazy input was accepted (call-time value did not override)")
     except Exception:
         pass
